@@ -271,13 +271,13 @@ ADDED = {
            "says; a 'codec' family hands corrupted genuine encodings of all 58 shipped Serializable classes to unpack_serializable(_list) "
            "at offset 0 and behind a pad. Late datagrams from the old and new address of a peer that roamed and was then dropped.",
     "C04": "Also: IPv8-shaped and own-prefix payloads over the e2e circuit, a dishonest rendezvous point reflecting relayed cells, the exit "
-           "giving its side up while the outside host still answers during the removal grace period. Destinations given by host name (several packets inside the exit's resolver at once); nothing leaves the exit more often than it was sent. A second port under the same host name; a cell copy with one prefix bit flipped must cause no traffic.",
+           "giving its side up while the outside host still answers during the removal grace period. Destinations given by host name (several packets inside the exit's resolver at once); nothing leaves the exit more often than it was sent. A second port under the same host name; a cell copy with one prefix bit flipped must cause no traffic. The exit gives a circuit up while the outside host keeps answering (window between dropping the entry and closing the socket).",
     "C05": "Also: created answers re-labelled with a live exit id, genuine signed overlay messages replayed from the adversary's address "
            "(neighbour addresses of backward entries compared), answers to plaintext creates made up by an off-path forger. A forged destroy for the surviving direction of a half-expired relay pair; a copy of a fresh circuit's first data cell reaching the exit first from the adversary's address. A third party's create racing with the genuine create for the same new id; a create for a new id at a node that is at its joined-circuit limit after a silent period.",
     "C07": "Also: exits whose flags the sender never learnt and a BitTorrent-only exit judged by its real flags, a second TunnelEndpoint "
            "of the process with the same overlay id, and: what a circuit is given is exactly what the overlay handed to its endpoint. "
-           "Thorough enumerates depth 6 over 12 symbols completely and samples lengths 7..10. A send directly followed by giving up every circuit while a held-back backlog exists. Bursts to 150 destinations while held back: one send() hands a circuit at most its own packet + 100.",
-    "C08": "Also: extends to a required exit the relay never met (the relay waits in a simulated slow DHT peer lookup) under duplication. Circuits built in one build_tunnels round with answers re-labelled (id + identifier) as answers to another outstanding create: the entry the circuit's route leads to must hold the accepted keys. A correctly encrypted candidate list led by an unparsable key; a required exit known to the originator under a stale address; unstable_timeout as a per-run knob.",
+           "Thorough enumerates depth 6 over 12 symbols completely and samples lengths 7..10. A send directly followed by giving up every circuit while a held-back backlog exists. Bursts to 150 destinations while held back: one send() hands a circuit at most its own packet + 100. Receive side: answers come back through the circuit to the anonymized overlay.",
+    "C08": "Also: extends to a required exit the relay never met (the relay waits in a simulated slow DHT peer lookup) under duplication. Circuits built in one build_tunnels round with answers re-labelled (id + identifier) as answers to another outstanding create: the entry the circuit's route leads to must hold the accepted keys. A correctly encrypted candidate list led by an unparsable key; a required exit known to the originator under a stale address; unstable_timeout as a per-run knob. The application cancelling circuit.ready while the circuit is being built (no hop beyond the goal).",
     "C09": "Also: the circuit's first data packet chased by the teardown (gaps 0..50 ms, remove_tunnel_delay 0/5, socket opening yields "
            "like asyncio). Key answers altered in flight with nobody tearing the circuit down (the retry timer has to give it up).",
     "C10": "Also: caches with two managed futures and partial answers completed by the user. Requests outstanding across the task manager's periodic age check (900 s, 1500 s) and wall-clock steps.",
